@@ -23,7 +23,10 @@ RULE = ('case = one forest (1-3 roots, depth <= 3) mixing objects that override 
         'mutator, accessor writes, rebind with 1-5 paths / by function / with '
         'Insertion and MISSING_VALUE, optionally notify_parents=False, '
         'skip_notification=True or inside notify_on_change(False)) at uniformly '
-        'chosen nodes. After every step the delivered events are compared with '
+        'chosen nodes; directed sub-histories: a structural list edit in front of '
+        'symbolic elements with notifications suppressed (insert/delete/pop/'
+        'remove/slices/reverse/rebind with Insertion or MISSING_VALUE), then a '
+        'notified write inside an element the edit moved. After every step the delivered events are compared with '
         'the events expected from the written locations, and every derived fact '
         'of every node with a fresh copy of the tree. Non-trivial = at least 3 '
         'steps returned normally with notification on and delivered an expected '
@@ -32,7 +35,8 @@ RULE = ('case = one forest (1-3 roots, depth <= 3) mixing objects that override 
 REQUIRED_COUNTERS = ['steps_ok', 'event_receiver_checks', 'events_expected_and_delivered',
                      'payload_entries_checked', 'order_pairs_checked',
                      'suppressed_steps_checked', 'derived_fact_comparisons',
-                     'derived_changed_steps']
+                     'derived_changed_steps',
+                     'notified_writes_inside_elements_moved_while_suppressed']
 ASSUMPTIONS = [
     'only public API is observed: _on_change/_on_bound overrides, onchange_callback, FieldUpdate fields, sym_parent, sym_items, the derived-state getters',
     'a batch never has a path that is a prefix of another, never addresses a location through a list that the same batch shortens or lengthens, and never uses Insertion on a dict',
@@ -42,6 +46,7 @@ ASSUMPTIONS = [
     'a call that raises delivers unspecified events; the derived facts must be fresh afterwards all the same',
     'fresh computation = the same getters on pg.from_json(pg.to_json(root), allow_partial=True), confirmed on a copy rebuilt through the public constructors',
     'type checking is on (enable_type_check(False) scopes are not generated); sealing is not generated',
+    'expected locations are the positions found by walking the containers from the receiver (sym_items), never the sym_path the library reports; a history continues over a tree whose only fault is a stale sym_path',
 ]
 
 UNTYPED = ('Any2', 'Writable', 'Notifier', 'Notifier', 'Bound', 'PlainBase', 'SubNotifier',
@@ -281,18 +286,25 @@ OP_WEIGHT = {'rebind': 5.0, 'rebind[fn]': 1.0, 'set_accessor_writable': 0.4,
              'Object.__setattr__': 3.0}
 
 
-def gen_step(rng, forest, scope_p=None):
+def gen_step(rng, forest, scope_p=None, among=None):
+  """One random step. among: restrict the receivers of the call to these nodes
+  (by identity); the call is then issued with notification on, at the node
+  itself (a follow-up write inside elements that an earlier call moved)."""
   nodes = [x for x in H.all_nodes(forest) if not in_hyper(forest, x[0], x[1])]
+  if among is not None:
+    ids = {id(m) for m in among}
+    nodes = [x for x in nodes if id(x[2]) in ids]
   if not nodes:
     return None, False
   for _ in range(25):
     ridx, keys, node = rng.choice(nodes)
-    cands = [o for o in O.ops_for(node, ('mutate', 'flag'))
+    cands = [o for o in O.ops_for(node, ('mutate', 'flag') if among is None
+                                  else ('mutate',))
              if o.name not in EXCLUDED_OPS]
     if not cands:
       continue
     o = rng.choices(cands, [OP_WEIGHT.get(x.name, 1.0) for x in cands])[0]
-    if o.name == 'rebind' and keys and rng.random() < 0.4:
+    if among is None and o.name == 'rebind' and keys and rng.random() < 0.4:
       k = rng.randrange(len(keys))        # batch from an ancestor (or the root)
       keys = keys[:k]
       node = D.resolve(forest, ridx, keys)
@@ -304,11 +316,91 @@ def gen_step(rng, forest, scope_p=None):
     if args is None:
       continue
     sc = [name for name, p in (scope_p or P_SCOPE).items() if rng.random() < p]
+    if among is not None and o.name == 'rebind':
+      args['opts'].pop('skip_notification', None)
     step = {'op': o.name, 'at': [ridx, keys], 'args': args, 'scopes': sc}
     if o.name == 'rebind' and not rebind_ok(step, node):
       continue
     return step, vs.aliased
   return None, False
+
+
+FOLLOW_SCOPE = {'writable': 0.5, 'partial': 0.05}
+
+
+def gen_shift_step(rng, forest):
+  """A structural edit of a list IN FRONT OF symbolic elements (insert, delete,
+  pop, remove, slice deletion / resizing slice assignment, reverse, rebind with
+  Insertion / MISSING_VALUE from the list or an ancestor) issued with
+  notifications suppressed (notify_on_change(False) or skip_notification=True):
+  no event may be delivered, and the elements behind the edit change position."""
+  cands = []
+  for ridx, keys, node in H.all_nodes(forest):
+    if isinstance(node, pg.List) and not in_hyper(forest, ridx, keys):
+      pos = [j for j, v in enumerate(node.sym_values())
+             if isinstance(v, pg.Symbolic) and not isinstance(v, pg.Ref)
+             and not is_hyper(v)]
+      if pos:
+        cands.append((ridx, keys, node, pos))
+  if not cands:
+    return None
+  ridx, keys, node, pos = rng.choice(cands)
+  j, n = rng.choice(pos), len(node)
+  g = O.GenEnv(rng, Values(forest, (ridx, keys), p_alias=0.0, p_invalid=0.0), forest)
+  kinds = ['insert', 'insert', 'rebind-ins', 'reverse']
+  if j >= 1:
+    kinds += ['delete', 'delete', 'delslice', 'setslice', 'rebind-del']
+  kind = rng.choice(kinds)
+  scopes = ['notify_off'] + (['writable'] if rng.random() < 0.5 else [])
+  at = [ridx, list(keys)]
+  if kind == 'insert':
+    i = rng.randint(0, j)
+    if rng.random() < 0.35:
+      i = i - n if rng.random() < 0.7 else -n - rng.randint(1, 2)
+    op, args = 'List.insert', {'i': i, 'v': g.value(node, 0)}
+  elif kind == 'delete':
+    i = rng.randrange(j)
+    op = rng.choice(['List.__delitem__[int]', 'List.pop', 'List.remove'])
+    args = {'pos': i} if op == 'List.remove' else {
+        'i': i if rng.random() < 0.7 else i - n}
+  elif kind == 'delslice':
+    a = rng.randrange(j)
+    op, args = 'List.__delitem__[slice]', {'a': a, 'b': rng.randint(a + 1, j), 'c': None}
+  elif kind == 'setslice':
+    a = rng.randrange(j)
+    b = rng.randint(a, j)
+    k = rng.choice([x for x in range(0, b - a + 3) if x != b - a])
+    op = 'List.__setitem__[slice]'
+    args = {'a': a, 'b': b, 'c': None, 'vs': [g.value(node, 0) for _ in range(k)]}
+  elif kind == 'reverse':
+    op, args = 'List.reverse', {}
+  else:
+    if kind == 'rebind-ins':
+      rel, v = [rng.randint(0, j)], ['ins', g.value(node, 0)]
+    else:
+      rel, v = [rng.randrange(j)], ['missing']
+    if keys and rng.random() < 0.5:          # issued from an ancestor of the list
+      k = rng.randrange(len(keys))
+      at, rel = [ridx, list(keys[:k])], list(keys[k:]) + rel
+    opts = {}
+    if rng.random() < 0.6:
+      opts['skip_notification'] = True
+      scopes = [x for x in scopes if x != 'notify_off']
+    op = 'rebind'
+    args = {'updates': [[rel, v]], 'opts': opts, 'form': 'dict',
+            'style': rng.choice(['raw', 'keypath', 'str']),
+            'api': rng.choice(['rebind', 'sym_rebind'])}
+  return {'op': op, 'at': at, 'args': args, 'scopes': scopes}
+
+
+def moved_nodes(pre, post):
+  """Symbolic nodes that the call left in the tree at another position."""
+  out = []
+  for info in pre.info.values():
+    pi = post.get(info.node)
+    if pi is not None and pi.ridx == info.ridx and pi.keys != info.keys:
+      out.append(info.node)
+  return out
 
 
 def execute(forest, step, build):
@@ -394,8 +486,21 @@ def run_case(ctx, i):
   ctx.label = None
 
   n_steps = rng.randint(ctx.params['steps'] // 2, ctx.params['steps'])
+  moved, moved_by, follow_left = [], None, 0
+  stale_origin = None     # mechanism of the step that left library paths stale
+  p_shift = ctx.params.get('p_shift', 0.1)
   for _ in range(n_steps):
-    step, aliased = gen_step(rng, forest, scope_p)
+    step, aliased, follow_up = None, False, False
+    if moved and follow_left > 0 and rng.random() < (0.9 if moved_by[1] else 0.35):
+      # a notified write INSIDE an element that the previous call moved
+      follow_left -= 1
+      step, aliased = gen_step(rng, forest, FOLLOW_SCOPE, among=moved)
+      follow_up = step is not None
+    elif rng.random() < p_shift:
+      step = gen_shift_step(rng, forest)
+      c['directed_suppressed_shift_steps'] += step is not None
+    if step is None:
+      step, aliased = gen_step(rng, forest, scope_p)
     if step is None:
       break
     # Every getter has been called on every node (after the previous step,
@@ -434,8 +539,27 @@ def run_case(ctx, i):
                                 suppressed=suppressed, below_only=below)
       if not suppressed and c['events_expected_and_delivered'] > before:
         notified_steps += 1
+      if follow_up:
+        c['writes_inside_moved_elements'] += 1
+        if moved_by[1] and not suppressed:
+          c['notified_writes_inside_elements_moved_while_suppressed'] += 1
+      if stale_origin is not None:
+        c['steps_on_stale_library_paths'] += 1
+      mv = moved_nodes(pre, post)
+      if mv:
+        moved, moved_by, follow_left = mv, (step['op'], suppressed), 2
+        c['steps_that_moved_nodes'] += 1
+        c['suppressed_steps_that_moved_nodes'] += suppressed
+      elif follow_up and not suppressed:
+        moved = []
       seen_key = set()
       for clause, detail, mech in problems:
+        if mech is None and clause == 'payload-keys' and stale_origin is not None:
+          # The library's own sym_path of a node was left stale by an earlier
+          # call (observed through public sym_path): the locations of the
+          # events that follow are judged against the true positions, and the
+          # finding is keyed by the call that left the path stale.
+          mech = stale_origin + '>stale-path'
         mech = mech or mechanism(step, status, False)
         if (clause, mech) in seen_key:
           continue
@@ -468,9 +592,20 @@ def run_case(ctx, i):
           f'{live[1]!r:.300}, fresh copy says {fresh[1]!r:.300}', witness())
       heal = True
 
-    if TM.tree_ok(forest):
+    tree_problems = TM.tree_ok(forest)
+    if tree_problems and all(cl == 'stale-path' for cl, _ in tree_problems):
+      # Only the library's own bookkeeping of positions (sym_path) is off. The
+      # expectations of this monitor never use it (positions come from walking
+      # the containers), so the history goes on: the next events must still
+      # carry the true locations.
+      c['stale_library_paths_carried_over'] += 1
+      if stale_origin is None:
+        stale_origin = H.mechanism(step, status, notify_matters=suppressed)
+    elif tree_problems:
       c['tree_broken_after_step'] += 1      # C01's business; do not build on it
       heal = True
+    else:
+      stale_origin = None
     if heal:
       new = rec.heal(forest)
       c['heals'] += 1
@@ -478,6 +613,7 @@ def run_case(ctx, i):
         c['abandoned_histories'] += 1
         break
       forest[:] = new
+      moved, stale_origin = [], None
       pre_facts = DV.touch(forest, c, srng)
       if DV.check(forest, c, pre_facts):
         c['abandoned_histories'] += 1
